@@ -26,7 +26,10 @@ BuildIndex(a, down) == BuildIndexP(a, Eps, EpsRec, Sentinel, NChunks, down)
 (***************************************************************************)
 (* State machine                                                           *)
 (***************************************************************************)
-CONSTANTS U, N
+CONSTANTS U, N,
+          MinBuildLen,  \* the index is built only on arrays of at least this length (1 in exhaustive runs; larger in
+                        \* simulation runs, to reach arrays long enough for three levels)
+          MaxStep       \* largest gap between consecutive keys (U in exhaustive runs: any gap)
 VARIABLES data,   \* the sorted array (1-based sequence over 0..U-1)
           index,  \* built levels (bottom first), <<>> before the build
           pc,     \* "grow", "built", "route", "done"
@@ -39,15 +42,16 @@ VARIABLES data,   \* the sorted array (1-based sequence over 0..U-1)
 vars == <<data, index, pc, q, k, lvl, it, visited, res, oob>>
 
 n == Len(data)
+Min(a, b) == IF a < b THEN a ELSE b
 NoRes == [pos |-> 0, lo |-> 0, hi |-> 0]
 Init == /\ \E x \in 0..(U - 1) : data = <<x>>
         /\ index = <<>> /\ pc = "grow" /\ q = 0 /\ k = 0 /\ lvl = 0 /\ it = 0 /\ visited = <<>> /\ res = NoRes /\ oob = FALSE
 
 Extend == /\ pc = "grow" /\ Len(data) < N
-          /\ \E x \in data[Len(data)]..(U - 1) : data' = Append(data, x)
+          /\ \E x \in data[Len(data)]..Min(U - 1, data[Len(data)] + MaxStep) : data' = Append(data, x)
           /\ UNCHANGED <<index, pc, q, k, lvl, it, visited, res, oob>>
 
-BuildIt == /\ pc = "grow"
+BuildIt == /\ pc = "grow" /\ Len(data) >= MinBuildLen
            /\ \E down \in BOOLEAN : index' = BuildIndex(data, down)
            /\ pc' = "built"
            /\ UNCHANGED <<data, q, k, lvl, it, visited, res, oob>>
@@ -63,8 +67,6 @@ Level(l) == index[l].segs
 LevelCount(l) == Len(Level(l)) - 1
 SubEps(x, e) == IF x <= e THEN 0 ELSE x - e
 AddEps(x, e, size) == IF x + e + 2 >= size THEN size ELSE x + e + 2
-Min(a, b) == IF a < b THEN a ELSE b
-
 \* rightmost entry (0-based) among the first cnt entries of a level whose key is <= key; -1 if none
 Responsible(l, key) == Cardinality({j \in 1..LevelCount(l) : Level(l)[j].key <= key}) - 1
 
